@@ -104,6 +104,12 @@ let () =
              (* with the in-process client connected the absolute numbers also count that client's own descriptors:
                 not modelled; the monitor checks that they return to their earlier values (vlib/ipcdata.py) *)
              pr !cur_census)
+        | ["open"; t; mx; enf] ->
+          let neg = negotiate_enforced (num mx) (num enf) in
+          hs := Some (hs_init (if t = "shm" then SHM else SOCK));
+          state := Some (init (if t = "shm" then SHM else SOCK) neg);
+          pr (Printf.sprintf "r 0 %s" (zs neg));
+          (match !state with Some s -> pr (state_line s) | None -> ())
         | ["open"; t; mx] ->
           let neg = negotiate (num mx) in
           hs := Some (hs_init (if t = "shm" then SHM else SOCK));
